@@ -22,7 +22,7 @@ PROPERTY = 'C15'
 LEVEL = 'proof'
 CY = 'emd/cycles.py'
 FUNCTIONS = ['emd.cycles.Cycles.get_matching_cycles', 'emd.cycles.Cycles.add_cycle_metric', 'emd.cycles.Cycles._safe_add_metric', 'emd.cycles.Cycles.pick_cycle_subset',
-             'emd.cycles.get_subset_vector', 'emd.cycles.get_chain_vector', 'emd._cycles_support.get_cycle_stat_from_samples']
+             'emd.cycles.get_subset_vector', 'emd.cycles.get_chain_vector', 'emd._cycles_support.get_cycle_stat_from_samples', 'emd._cycles_support.make_slice_cache']
 ASSUMPTIONS = [
     'the container is an arbitrary object satisfying the class invariant (fields set directly; metrics is a map of symbolic vectors of length ncycles)',
     '_parse_condition is replaced by its contract in get_matching_cycles (name, comparator ufunc, float value); the parser itself is checked by exhaustive enumeration (bounded)',
@@ -30,7 +30,7 @@ ASSUMPTIONS = [
     'slice-cache equivalence (make_slice_cache / get_slice_stat_from_samples), chain metrics, compute_position_in_chain and the pandas export are covered by the bounded stand-in only',
 ]
 NOT_COVERED = ['_parse_condition (string theory): exhaustive enumeration over comparators x literal shapes x names - bounded',
-               'cache on/off equality, chain metrics, chain positions, tabular exports - bounded stand-in',
+               'cache on/off equality (beyond: the slice cache is the run decomposition of the label vector - proved), chain metrics, chain positions, tabular exports - bounded stand-in',
                'augmented-mode metrics (outside the unbounded units)']
 
 NC = z3.Int('ncycles')
@@ -188,6 +188,9 @@ def units(tier):
     # ---- functional content reused from C16 / C14
     U += [u for u in C16.units(tier) if u.name in ('get_subset_vector', 'get_chain_vector')]
     U += [u for u in C14.units(tier) if u.name == 'get_cycle_stat_from_samples']
+    # the slice cache (the cache-on route of every per-cycle metric): the run decomposition of the label vector at its unit steps (C13 unit)
+    from contracts import C13
+    U.append(C13.slice_cache_unit())
     return U
 
 
